@@ -104,6 +104,14 @@ def setItem (s : Expr) (k : Text) (v : PyVal) : Expr :=
     | some bs' => .aset bs' ml
     | none => .aset (bs ++ [(k, value)]) ml
 
+/-! ## Domain predicates on strings -/
+
+/-- the string contains `${` (such strings are outside the property's domain) -/
+def hasInterp : Text → Bool
+  | [] => false
+  | '$' :: '{' :: _ => true
+  | _ :: cs => hasInterp cs
+
 /-! ## Rendering -/
 
 /-- `f"{self.value}"` for a Python int -/
